@@ -463,6 +463,81 @@ func sandboxProbe(w *World, n *Node) {
 	if _, ok = ob.do("EVAL", "return {KEYS[1], ARGV[1]}", "1", "secretkey", "secretarg"); !ok {
 		return
 	}
+	enumerate := func(when string) bool {
+		w.Settle()
+		srv := n.inst.srv
+		pool := srv.luapool
+		pool.m.Lock()
+		states := append([]*lua.LState(nil), pool.saved...)
+		pool.m.Unlock()
+		if len(states) == 0 {
+			w.harnessErr("no pooled interpreter to inspect")
+			return false
+		}
+		for _, L := range states {
+			var names []string
+			seen := map[*lua.LTable]bool{}
+			var walk func(prefix string, t *lua.LTable, depth int)
+			walk = func(prefix string, t *lua.LTable, depth int) {
+				if seen[t] || depth > 3 {
+					return
+				}
+				seen[t] = true
+				t.ForEach(func(k, v lua.LValue) {
+					name := prefix + k.String()
+					names = append(names, name)
+					if sub, ok := v.(*lua.LTable); ok {
+						walk(name+".", sub, depth+1)
+					}
+					if f, ok := v.(*lua.LFunction); ok && !f.IsG && f.Env != nil {
+						_ = f
+					}
+				})
+			}
+			g := L.Get(lua.GlobalsIndex).(*lua.LTable)
+			walk("", g, 0)
+			sort.Strings(names)
+			for _, nm := range names {
+				if !luaAllowed[nm] {
+					w.violate("C18/sandbox", "%s: the global environment of a pooled (idle) interpreter contains %q, which is not on the documented allow-list", when, nm)
+					return false
+				}
+			}
+			for nm := range luaAllowed {
+				if !contains(names, nm) && nm != "_G" {
+					// a missing allowed name is not a sandbox breach; only count it
+					w.stat("c18.allowed_names_missing", 1)
+				}
+			}
+			w.stat("c18.globals_enumerated", len(names))
+		}
+		return true
+	}
+	// 1b. calls that fail before or while they run, and per-object filter scripts (WHEREEVAL):
+	// whatever they were given (KEYS, ARGV, the object under evaluation) must be gone from the
+	// interpreter when it goes back to the pool - also on the error paths
+	ob.do("SET", "sbx", "a", "FIELD", "speed", "90", "POINT", "1", "1")
+	ob.do("SET", "sbx", "b", "FIELD", "speed", "5", "OBJECT", `{"type":"Feature","geometry":{"type":"Point","coordinates":[2,2]},"properties":{"driver":"alice"}}`)
+	for _, c := range [][]string{
+		{"EVALSHA", "0123456789abcdef0123456789abcdef01234567", "1", "secretkey", "secretarg"}, // unknown hash
+		{"EVAL", "return (", "1", "secretkey", "secretarg"},                                    // does not compile
+		{"EVAL", "return nosuchfunction(KEYS[1])", "1", "secretkey", "secretarg"},              // fails while running
+		{"EVALRO", "return tile38.call('SET', KEYS[1], 'x', 'POINT', 1, 1)", "1", "sbx"},       // refused call
+		{"SCAN", "sbx", "WHEREEVAL", "return FIELDS.speed > 10", "0"},
+		{"SCAN", "sbx", "WHEREEVAL", "return FIELDS.route.region == ARGV[1]", "1", "secretarg"}, // indexes a missing table
+		{"SCAN", "sbx", "WHEREEVAL", "return nosuchfunction(ID)", "0"},
+		{"SCAN", "sbx", "WHEREEVAL", "return PROPERTIES ~= nil and PROPERTIES.driver == 'alice'", "0"},
+		{"SCAN", "sbx", "WHEREEVAL", "return (", "0"},
+	} {
+		if _, ok = ob.do(c...); !ok {
+			return
+		}
+		// (the next successful call on the same interpreter would wipe the traces: look now)
+		if !enumerate("after [" + clipStr(strings.Join(c, " "), 90) + "]") {
+			return
+		}
+	}
+	w.stat("probe.sandbox_error_paths", 1)
 	// 2. more scripts in flight than the pool holds: every interpreter - also one created on
 	// demand - must refuse new globals. The scripts' inner calls are held at the lock so that
 	// all of them are in flight at once.
@@ -496,52 +571,8 @@ func sandboxProbe(w *World, n *Node) {
 			return
 		}
 	}
-	w.Settle()
-	srv := n.inst.srv
-	pool := srv.luapool
-	pool.m.Lock()
-	states := append([]*lua.LState(nil), pool.saved...)
-	pool.m.Unlock()
-	if len(states) == 0 {
-		w.harnessErr("no pooled interpreter to inspect")
+	if !enumerate("after scripts from more connections than the pool holds") {
 		return
-	}
-	for _, L := range states {
-		var names []string
-		seen := map[*lua.LTable]bool{}
-		var walk func(prefix string, t *lua.LTable, depth int)
-		walk = func(prefix string, t *lua.LTable, depth int) {
-			if seen[t] || depth > 3 {
-				return
-			}
-			seen[t] = true
-			t.ForEach(func(k, v lua.LValue) {
-				name := prefix + k.String()
-				names = append(names, name)
-				if sub, ok := v.(*lua.LTable); ok {
-					walk(name+".", sub, depth+1)
-				}
-				if f, ok := v.(*lua.LFunction); ok && !f.IsG && f.Env != nil {
-					_ = f
-				}
-			})
-		}
-		g := L.Get(lua.GlobalsIndex).(*lua.LTable)
-		walk("", g, 0)
-		sort.Strings(names)
-		for _, nm := range names {
-			if !luaAllowed[nm] {
-				w.violate("C18/sandbox", "script global environment contains %q, which is not on the documented allow-list", nm)
-				return
-			}
-		}
-		for nm := range luaAllowed {
-			if !contains(names, nm) && nm != "_G" {
-				// a missing allowed name is not a sandbox breach; only count it
-				w.stat("c18.allowed_names_missing", 1)
-			}
-		}
-		w.stat("c18.globals_enumerated", len(names))
 	}
 	w.stat("probe.sandbox_probe_runs", 1)
 }
